@@ -63,9 +63,124 @@ Proof.
   - intros [t sh d] v x' Hw H. unfold wf in *. cbn [l_take lget lput aty ash adata] in *.
     destruct sh as [|n s]; try discriminate. destruct (Nat.leb k n) eqn:K; [|discriminate].
     cbn [andb] in H. destruct (same_cell t (k :: s) v) eqn:C; [|discriminate].
-    apply Nat.leb_le in K. apply same_cell_spec in C as (T & S & L). inversion H; subst; clear H.
-    cbn [aty ash adata]. rewrite K'. 2: exact (proj2 (Nat.leb_le k n) K).
+    pose proof K as Kb. apply Nat.leb_le in K. apply same_cell_spec in C as (T & S & L). inversion H; subst; clear H.
+    cbn [aty ash adata]. rewrite Kb.
     cbn [prodn fold_right] in *. fold (prodn s) in *.
     rewrite firstn_exact by auto. rewrite <- S. rewrite arr_eta. split; auto.
     rewrite app_length, skipn_length. nia.
+Qed.
+
+Theorem drop_well_behaved k : well_behaved (l_drop k).
+Proof.
+  split.
+  - intros [t sh d] v Hw H. unfold wf in *. cbn [l_drop lget lput aty ash adata] in *.
+    destruct sh as [|n s]; try discriminate. destruct (Nat.leb k n) eqn:K; [|discriminate].
+    apply Nat.leb_le in K. inversion H; subst; clear H. cbn [aty ash adata andb].
+    cbn [prodn fold_right] in Hw. fold (prodn s) in Hw.
+    assert (L : length (skipn (k * prodn s) d) = prodn ((n - k)%nat :: s)).
+    { rewrite skipn_length. cbn [prodn fold_right]. fold (prodn s). nia. }
+    rewrite same_cell_intro by auto. rewrite firstn_skipn. split; auto.
+  - intros [t sh d] v x' Hw H. unfold wf in *. cbn [l_drop lget lput aty ash adata] in *.
+    destruct sh as [|n s]; try discriminate. destruct (Nat.leb k n) eqn:K; [|discriminate].
+    cbn [andb] in H. destruct (same_cell t ((n - k)%nat :: s) v) eqn:C; [|discriminate].
+    pose proof K as Kb. apply Nat.leb_le in K. apply same_cell_spec in C as (T & S & L). inversion H; subst; clear H.
+    cbn [aty ash adata]. rewrite Kb.
+    cbn [prodn fold_right] in *. fold (prodn s) in *.
+    assert (F : length (firstn (k * prodn s) d) = k * prodn s) by (rewrite firstn_length; nia).
+    rewrite skipn_exact by auto. rewrite <- S. rewrite arr_eta. split; auto.
+    rewrite app_length, F. nia.
+Qed.
+
+Theorem reverse_well_behaved : well_behaved l_reverse.
+Proof.
+  split.
+  - intros x v Hw H. cbn [l_reverse lget lput] in *. inversion H; subst; clear H.
+    pose proof (wf_reverse x Hw) as W. unfold same_cell.
+    rewrite shape_reverse. replace (aty (p_reverse x)) with (aty x) by (destruct x as [t [|n s] d]; reflexivity).
+    rewrite ety_eqb_refl, list_eqb_refl_nat. cbn [andb]. unfold wfb. unfold wf in W. rewrite W, Nat.eqb_refl.
+    rewrite reverse_involutive by auto. split; auto.
+  - intros x v x' Hw H. cbn [l_reverse lget lput] in *. destruct (same_cell (aty x) (ash x) v) eqn:C; [|discriminate].
+    apply same_cell_spec in C as (T & S & L). inversion H; subst; clear H.
+    assert (Wv : wf v) by (unfold wf; congruence).
+    rewrite reverse_involutive by auto. split; auto using wf_reverse.
+Qed.
+
+Theorem fix_well_behaved : well_behaved l_fix.
+Proof.
+  split.
+  - intros [t sh d] v Hw H. cbn [l_fix lget lput aty ash adata] in *. inversion H; subst; clear H.
+    unfold wf, p_fix in *; cbn [aty ash adata] in *. rewrite same_cell_intro by (cbn [prodn fold_right]; fold (prodn sh); lia).
+    split; [reflexivity|]. cbn [prodn fold_right]. fold (prodn sh). lia.
+  - intros [t sh d] v x' Hw H. cbn [l_fix lget lput aty ash adata] in *.
+    destruct (same_cell t (1%nat :: sh) v) eqn:C; [|discriminate]. apply same_cell_spec in C as (T & S & L).
+    destruct v as [tv sv dv]. cbn [aty ash adata] in *. subst. unfold unfix in H; cbn in H. inversion H; subst.
+    split; [reflexivity|]. unfold wf; cbn [aty ash adata]. cbn [prodn fold_right] in L. fold (prodn sh) in L. lia.
+Qed.
+
+Theorem deshape_well_behaved : well_behaved l_deshape.
+Proof.
+  split.
+  - intros [t sh d] v Hw H. cbn [l_deshape lget lput aty ash adata] in *. inversion H; subst; clear H.
+    unfold wf, p_deshape in *; cbn [aty ash adata] in *.
+    rewrite same_cell_intro by (cbn [prodn fold_right]; lia). split; [reflexivity|]. cbn [prodn fold_right]. lia.
+  - intros [t sh d] v x' Hw H. cbn [l_deshape lget lput aty ash adata] in *.
+    destruct (same_cell t [prodn sh] v) eqn:C; [|discriminate]. apply same_cell_spec in C as (T & S & L).
+    inversion H; subst; clear H. unfold p_deshape; cbn [aty ash adata]. rewrite <- S. rewrite arr_eta.
+    split; [reflexivity|]. unfold wf; cbn [aty ash adata]. rewrite S in L. cbn [prodn fold_right] in L. lia.
+Qed.
+
+Lemma rot_by_shape k x v : rot_by k x = Ok v -> aty v = aty x /\ ash v = ash x.
+Proof.
+  destruct x as [t sh d]. unfold rot_by; cbn [aty ash adata]. destruct sh as [|n s]; [discriminate|].
+  destruct (Nat.eqb n 0); intros H; inversion H; subst; auto.
+Qed.
+Lemma rot_by_wf k x v : wf x -> rot_by k x = Ok v -> wf v.
+Proof.
+  destruct x as [t sh d]. unfold wf, rot_by; cbn [aty ash adata]. destruct sh as [|n s]; [discriminate|].
+  destruct (Nat.eqb n 0); intros Hw H; inversion H; subst; auto. cbn [ash adata].
+  cbn [prodn fold_right] in *. fold (prodn s) in *.
+  rewrite (concat_length_const (prodn s)).
+  - rewrite rotl_length, chunk_length. reflexivity.
+  - apply Forall_rotl. apply chunk_rows_len. lia.
+Qed.
+
+Theorem rotate_well_behaved k : well_behaved (l_rotate k).
+Proof.
+  split.
+  - intros x v Hw H. cbn [l_rotate lget lput] in *.
+    destruct (rot_by_shape _ _ _ H) as [T S]. pose proof (rot_by_wf _ _ _ Hw H) as Wv.
+    unfold same_cell. rewrite T, S, ety_eqb_refl, list_eqb_refl_nat. cbn [andb].
+    unfold wfb. unfold wf in Wv. rewrite Wv, Nat.eqb_refl. split; auto. eapply rot_by_inv; eauto.
+  - intros x v x' Hw H. cbn [l_rotate lget lput] in *. destruct (same_cell (aty x) (ash x) v) eqn:C; [|discriminate].
+    apply same_cell_spec in C as (T & S & L). assert (Wv : wf v) by (unfold wf; congruence).
+    split; [|eapply rot_by_wf; eauto].
+    pose proof (rot_by_inv (- k) v x' Wv H) as R. rewrite Z.opp_involutive in R. exact R.
+Qed.
+
+(** lens composition: the laws lift through sequencing (and hence through dip, which only moves
+    the focus to another stack slot) *)
+Theorem seq_well_behaved l1 l2 : well_behaved l1 -> well_behaved l2 -> well_behaved (l_seq l1 l2).
+Proof.
+  intros [G1 P1] [G2 P2]. split.
+  - intros x v Hw H. cbn [l_seq lget lput] in *. apply bind_ok in H as (y & Hy & Hv).
+    destruct (G1 _ _ Hw Hy) as [E1 Wy]. destruct (G2 _ _ Wy Hv) as [E2 Wv].
+    rewrite Hy. cbn [bind]. rewrite E2. cbn [bind]. auto.
+  - intros x v x' Hw H. cbn [l_seq lget lput] in *. apply bind_ok in H as (y & Hy & H).
+    apply bind_ok in H as (y' & Hy' & H).
+    destruct (G1 _ _ Hw Hy) as [_ Wy]. destruct (P2 _ _ _ Wy Hy') as [E2 Wy'].
+    destruct (P1 _ _ _ Hw H) as [E1 Wx']. rewrite E1. cbn [bind]. auto.
+Qed.
+
+(** `⍜F∘ x = x` *)
+Theorem under_identity l x v : well_behaved l -> wf x -> lget l x = Ok v -> under_run l Ok x = Ok x.
+Proof.
+  intros [G _] Hw H. unfold under_run. rewrite H. cbn [bind]. apply (G _ _ Hw H).
+Qed.
+
+(** `⍜F G x`: the part F selects from the result is exactly G of the part F selected from x *)
+Theorem under_put_get l g x x' : well_behaved l -> wf x -> under_run l g x = Ok x' ->
+  exists v w, lget l x = Ok v /\ g v = Ok w /\ lget l x' = Ok w /\ wf x'.
+Proof.
+  intros [_ P] Hw H. unfold under_run in H. apply bind_ok in H as (v & Hv & H). apply bind_ok in H as (w & Hg & H).
+  destruct (P _ _ _ Hw H) as [E W]. eauto 8.
 Qed.
